@@ -6,6 +6,19 @@ claim('C13', 'path rules on MIR CFGs (edge-cut / must-pass-through): Pending dis
       'rustc front end and MIR construction; mirfacts extractor; std Waker / mio channel semantics; one waker slot per entity.',
       'DESIGN.md section 4 C13')
 
+claim('C09', 'loop-progress rule (must-pass-through on every cycle query->query and on every non-empty exit), outer-loop and wrapper rules on MIR',
+      'Decides that every loop on the read/take call graph that re-issues a receive-cache query advances both read pointers on every path back to the query, '
+      'that every non-empty exit advances them too (reported exactly once), and that wrappers and outer loops only continue after a consumed change. '
+      'Termination then follows for every cache content because each iteration consumes one change of a finite cache.',
+      'rustc front end + MIR; mirfacts; user-supplied Decode/DeserializerAdapter terminate; topic-cache iterators are finite.',
+      'DESIGN.md section 4 C09')
+claim('C10', 'abstract interpretation of MIR over a finite ordering domain (exhaustive truth table) + provenance rules',
+      'Exhaustive over a finite abstract domain: the MIR of compliance_failure_wrt_impl and of every comparator it reaches is interpreted for every combination of '
+      'presence, enum variant, boolean and weak ordering of the scalar fields, and the verdict compared with the DDS 1.4 2.2.3 request/offered table '
+      '(obligations = valuations, all discharged). Call-site roles (offered vs requested) and comparator hygiene are decided by provenance rules.',
+      'rustc front end + MIR; mirfacts; the rdv.absint interpreter and its std comparator semantics; the RxO table as transcribed in rules/C10.py; Durations normalised.',
+      'DESIGN.md section 4 C10', category='proof')
+
 _pending = 'check not built yet in this revision (static rules designed in DESIGN.md section 4; implementation in progress)'
 for _p in ['C01', 'C02', 'C03', 'C04', 'C05', 'C06', 'C08', 'C09', 'C10', 'C11', 'C12', 'C14', 'C15', 'C16', 'C17', 'C18', 'C19', 'C20']:
     if _p not in CHECKS:
